@@ -83,6 +83,7 @@ pub fn decode_bound_case(d: &[u8]) -> props::daemon::BoundCase {
         phc,
         drift: c.u32(),
         as_of_ns: (c.u64() % 4_000_000_000_000_000_000) as i64,
+        phc_prev: if c.bool() { Some((c.u64() % (1 << 50)) as i64) } else { None },
     }
 }
 
